@@ -42,6 +42,7 @@ type Turn18 struct {
 	Calls   []Call18 `json:"calls,omitempty"`
 	Chunks  int      `json:"chunks"`           // number of stream chunks
 	Late    bool     `json:"late,omitempty"`   // tool calls arrive after a content chunk (needs the whole-stream checker)
+	Lead    int      `json:"lead,omitempty"`   // number of empty chunks in front of the first chunk that carries anything (0 = one, as before)
 	IDLate  bool     `json:"idlate,omitempty"` // id, type and name of the tool calls arrive in the chunk after the first argument fragment
 }
 
@@ -149,7 +150,13 @@ func (c CaseC18) chunks(turn int, tag string) []*schema.Message {
 		out = append(out, cchunks...)
 		out = append(out, head)
 	} else {
-		out = append(out, &schema.Message{Role: schema.Assistant}) // an empty chunk at the front is allowed
+		lead := 1
+		if turn < len(c.Script) && c.Script[turn].Lead > 0 {
+			lead = c.Script[turn].Lead
+		}
+		for i := 0; i < lead; i++ {
+			out = append(out, &schema.Message{Role: schema.Assistant}) // empty chunks at the front are allowed
+		}
 		out = append(out, head)
 		out = append(out, cchunks...)
 	}
@@ -254,6 +261,7 @@ func genC18(t *rapid.T) CaseC18 {
 		}
 		tr.Late = rapid.IntRange(0, 3).Draw(t, "late") == 0
 		tr.IDLate = rapid.IntRange(0, 3).Draw(t, "idLate") == 0
+		tr.Lead = rapid.IntRange(0, 3).Draw(t, "lead")
 		c.Script = append(c.Script, tr)
 	}
 	if rapid.IntRange(0, 2).Draw(t, "hasDirect") == 0 {
